@@ -90,8 +90,11 @@ def do_run(ids, tier, props, slot='0'):
     vcopy = f'/tmp/verif_run_{slot}'
     wt = f'/tmp/wt_run_{slot}'
     os.makedirs(vcopy, exist_ok=True)
-    sh(['rsync', '-a', '--delete', '--exclude', '.git', '--exclude', 'seeded', '--exclude', 'replays', '--exclude', 'evidence',
-        VERIF + '/', vcopy + '/'])
+    # a slot directory holding a `.nosync` marker keeps its snapshot of /verif (so that /verif can be edited while a long
+    # runall is in flight); remove the marker to refresh it
+    if not os.path.exists(os.path.join(vcopy, '.nosync')):
+      sh(['rsync', '-a', '--delete', '--exclude', '.git', '--exclude', 'seeded', '--exclude', 'replays', '--exclude', 'evidence',
+          VERIF + '/', vcopy + '/'])
     os.makedirs(os.path.join(vcopy, 'replays'), exist_ok=True)
     os.makedirs(os.path.join(vcopy, 'evidence'), exist_ok=True)
     for sid in ids:
